@@ -20,6 +20,9 @@ FILE_PROPS = {
 }
 
 for _f, _ps in FILE_PROPS.items():          # layout-changing mutants of the rendering code are C02's business (canonical sources byte for byte)
+    if _f.startswith('expressions/') and _f not in ('expressions/identifier.py', 'expressions/scope.py', 'expressions/path.py', 'expressions/import_expression.py', 'expressions/source_code.py', 'expressions/expression.py'):
+        for _q in ('C01', 'C03', 'C18', 'C06'):
+            if _q not in _ps: _ps.append(_q)
     if _f.startswith('expressions/') and 'C02' not in _ps and _f not in ('expressions/identifier.py', 'expressions/scope.py', 'expressions/path.py', 'expressions/import_expression.py'): _ps.append('C02')
 CMP = {ast.Eq: ast.NotEq, ast.NotEq: ast.Eq, ast.Lt: ast.LtE, ast.LtE: ast.Lt, ast.Gt: ast.GtE, ast.GtE: ast.Gt, ast.Is: ast.IsNot, ast.IsNot: ast.Is, ast.In: ast.NotIn, ast.NotIn: ast.In}
 
@@ -95,8 +98,20 @@ def main():
         elif a == '--per-file': K = int(args.pop(0))
         elif a == '--seed': seed = int(args.pop(0))
         else: files.append(a)
-    files = files or list(FILE_PROPS)
     R = random.Random(seed); jobs = []; os.makedirs(SCR, exist_ok=True)
+    if files and files[0] == '--from-log':          # re-run the survivors of an earlier run: --from-log LOGFILE
+        import re
+        for line in open(files[1]):
+            if not line.startswith('{'): continue
+            r = json.loads(line)
+            if r['status'] != 'SURVIVED': continue
+            m = re.match(r'line (\d+): (.*)', r['mutation']); lineno, kind = int(m.group(1)), {'drop not': 'dropnot', 'swap break/continue': 'swapbc'}.get(m.group(2), m.group(2))
+            tree = ast.parse(open(os.path.join(REPO, 'nix_manipulator', r['file'])).read()); s = Sites(); s.visit(tree)
+            by = {getattr(n, '_mid', None): n for n in ast.walk(tree)}
+            c = [mid for k, mid in s.sites if k == kind and getattr(by.get(mid), 'lineno', None) == lineno]
+            if c: jobs.append((len(jobs), r['file'], kind, c[0]))
+        files = []
+    else: files = files or list(FILE_PROPS)
     for rel in files:
         src = open(os.path.join(REPO, 'nix_manipulator', rel)).read(); s = Sites(); s.visit(ast.parse(src))
         for kind, mid in R.sample(s.sites, min(K, len(s.sites))): jobs.append((len(jobs), rel, kind, mid))
